@@ -504,7 +504,8 @@ def jinja_text(n) -> str:
     return type(n).__name__ + "(" + ", ".join(jinja_text(k) for k in kids) + ")"
 
 
-def jinja_tainted(expr, is_source: typing.Callable[[str, typing.Any], bool], sanitizers: typing.Set[str]) -> typing.List[str]:
+def jinja_tainted(expr, is_source: typing.Callable[[str, typing.Any], bool], sanitizers: typing.Set[str],
+                  is_safe: typing.Optional[typing.Callable[[str, typing.Any], bool]] = None) -> typing.List[str]:
     """Sub-expressions of `expr` that are taint sources and reach the output without passing a sanitising filter."""
     from nunavut.jinja.jinja2 import nodes as N
 
@@ -512,6 +513,9 @@ def jinja_tainted(expr, is_source: typing.Callable[[str, typing.Any], bool], san
 
     def walk(n, clean: bool) -> None:
         if isinstance(n, N.Filter):
+            if not clean and is_source(f"|{n.name}", n):
+                found.append(jinja_text(n))
+                return
             c = clean or n.name in sanitizers
             if n.node is not None:
                 walk(n.node, c)
@@ -526,6 +530,8 @@ def jinja_tainted(expr, is_source: typing.Callable[[str, typing.Any], bool], san
                 walk(n.expr2, clean)
             return
         t = jinja_text(n)
+        if is_safe is not None and is_safe(t, n):
+            return  # a reduction of the source that carries no ambient information (e.g. path.name)
         if is_source(t, n) and not clean:
             found.append(t)
             return
